@@ -18,7 +18,7 @@ template <class T, size_t M, size_t N> struct IdxTypes<Uni<T, M, N>, 2> {
     using Part = Tensor<int, M, (N + 1) / 2>; using PartU = Tensor<size_t, M, (N + 1) / 2>;
     using Full = Tensor<int, M, N>; using Mask = Tensor<bool, M, N>;
 };
-template <class U, bool Av = IdxTypes<U>::available> struct IdxOps {
+template <class U, bool Av = IdxTypes<U>::available && !VIEWSIM_MAP_PARENT> struct IdxOps {
     static void idx(U &, const Step &, StepCtx &) {}
     static void mask(U &, const Step &, StepCtx &) {}
 };
@@ -116,7 +116,7 @@ template <class U> struct DiagOps<U, true> {
 };
 template <class U> struct IsSquare2 { static constexpr bool value = false; };
 template <class T, size_t N> struct IsSquare2<Uni<T, N, N>> { static constexpr bool value = true; };
-template <class T, size_t... D> void Uni<T, D...>::diag_coinc(const Step &st, StepCtx &cx) { DiagOps<self, IsSquare2<self>::value>::go(*this, st, cx); }
+template <class T, size_t... D> void Uni<T, D...>::diag_coinc(const Step &st, StepCtx &cx) { DiagOps<self, IsSquare2<self>::value && !VIEWSIM_MAP_PARENT>::go(*this, st, cx); }
 
 // ---------------------------------------------------------------- dispatcher
 template <class T, size_t... D>
